@@ -5,6 +5,8 @@
 import PV.Gen.Frames
 import PV.Model.History
 import PV.Model.Relabel
+import PV.Proofs.RealScalar
+import PV.Proofs.C03Lemmas
 
 namespace PV
 open Scalar
@@ -32,5 +34,180 @@ theorem c03_reset_complete : ∀ a ∈ gmSubscriptWrites ++ gmDynamic, a ∈ gmR
 /-- C03 (derivation is blind to analyses): `derived_observable` reads no attribute that
     `gamma_method` writes, hence deriving from an analysed object equals deriving from a fresh one -/
 theorem c03_derive_blind : ∀ a ∈ derivedReads, a ∉ gmWrites := by decide
+
+section generic
+variable {α : Type} [Transc α]
+
+/-- C03 (relabelling): multiplying all configuration numbers of an ensemble by `a ≥ 1` and
+    shifting them by `b` leaves every output of the analysis of that ensemble unchanged —
+    tau_int, its error, the error, the error of the error, the window, ρ, δρ.  Holds for every
+    scalar type (the integer bookkeeping is literally identical). -/
+theorem c03_affine (fp : FpConsts α) (ens : String) (reps : List (Rep α)) (S te ns : α)
+    (a b : Int) (ha : 1 ≤ a) :
+    gammaEnsemble fp ens (reps.map (Rep.affine a b)) S te ns = gammaEnsemble fp ens reps S te ns := by
+  by_cases hne : reps = []
+  · subst hne; rfl
+  unfold gammaEnsemble
+  rw [determineGap_affine ens reps a b ha hne]
+  cases determineGap ens reps with
+  | error e => rfl
+  | ok g =>
+    simp only [bind, Except.bind, List.map_map, List.foldl_map, Function.comp_def, Rep.affine_idl, Rep.affine_deltas,
+      rLength_affine a b ha, calcGamma_affine a b ha, Idl.len_affine]
+
+/-- C03 (renaming): the per-ensemble analysis never looks at replica names -/
+theorem c03_rename (fp : FpConsts α) (ens : String) (reps : List (Rep α)) (S te ns : α)
+    (f : String → String) :
+    gammaEnsemble fp ens (reps.map (Rep.rename f)) S te ns = gammaEnsemble fp ens reps S te ns := by
+  unfold gammaEnsemble determineGap
+  simp only [List.map_map, List.foldl_map, Function.comp_def, Rep.rename]
+end generic
+
+section history
+variable {α : Type} [Scalar α] {R : Type}
+
+/-- analyses never change the defaults -/
+theorem c03_globals (enss : Nat → List String) (analyse : Nat → List (String × α × α × α) → Option R)
+    (w : World α R) (ops : List (HOp α)) :
+    (run enss analyse w ops).g = globalsAfter w.g ops := by
+  induction ops generalizing w with
+  | nil => rfl
+  | cons op r ih =>
+    simp only [run, List.foldl_cons] at ih ⊢
+    rw [ih]
+    cases op <;> simp only [step, globalsAfter]
+    split <;> rfl
+
+/-- C03 (history): after ANY sequence of operations (changes of the global and per-ensemble
+    defaults, analyses of this and of other objects with any arguments, arithmetic) the stored
+    analysis of object `i` is the one determined by its last analysis alone: the data of `i` and
+    the parameters effective at that moment (argument over dictionary over global). -/
+theorem c03_history (enss : Nat → List String) (analyse : Nat → List (String × α × α × α) → Option R)
+    (w : World α R) (ops : List (HOp α)) (i : Nat) (hi : i < w.res.length) :
+    (run enss analyse w ops).res.getD i none
+      = lastResult enss analyse w.g (w.res.getD i none) i ops := by
+  induction ops generalizing w with
+  | nil => rfl
+  | cons op r ih =>
+    simp only [run, List.foldl_cons] at ih ⊢
+    have hlen : i < (step enss analyse w op).res.length := by
+      cases op <;> simp only [step] <;> try exact hi
+      split <;> simpa using hi
+    rw [ih _ hlen]
+    cases op with
+    | gm j kw =>
+      simp only [lastResult, step, globalsAfter]
+      by_cases hj : j = i
+      · subst hj
+        cases effective w.g kw (enss j) <;> simp [hi]
+      · cases effective w.g kw (enss j) <;> simp [hj, List.getD_eq_getElem?_getD, List.getElem?_set_ne hj]
+    | _ => simp only [lastResult, step, globalsAfter]
+
+/-- C03 (precedence): explicit argument over per-ensemble dictionary over global default;
+    a negative explicit argument is rejected -/
+theorem c03_precedence (g : Globals α) (kw : List (Kw × α)) (k : Kw) (e : String) :
+    effective1 g kw k e =
+      (match kw.find? (·.1 == k) with
+       | some (_, v) => if v < 0 then .error .negativeParam else .ok v
+       | none => .ok ((dictGet? (g.dict k) e).getD (g.glob k))) := by
+  unfold effective1
+  cases kw.find? (·.1 == k) with
+  | some p => rfl
+  | none => cases dictGet? (g.dict k) e <;> rfl
+end history
+
+section real
+open RealS
+/-- the clamp and the bias factor keep tau_int above 1/2 and all errors non-negative:
+    whenever the analysis of an ensemble succeeds (over ℝ, with positive eps, half = 1/2,
+    at least two configurations) -/
+theorem c03_tau_ge_half (fp : FpConsts ℝ) (ens : String) (reps : List (Rep ℝ)) (S te ns : ℝ)
+    (r : EnsResult ℝ) (hfp : fp.half = 1 / 2 ∧ 0 < fp.eps)
+    (hN : 2 ≤ (reps.map (·.idl.len)).foldr (· + ·) 0) (hte : 0 ≤ te)
+    (h : gammaEnsemble fp ens reps S te ns = .ok r) :
+    1 / 2 ≤ r.tauint ∧ 0 ≤ r.dtauint ∧ 0 ≤ r.dvalue ∧ 0 ≤ r.ddvalue := by
+  unfold gammaEnsemble at h
+  cases hg : determineGap ens reps with
+  | error e => rw [hg] at h; cases h
+  | ok gap =>
+    rw [hg, Except.ok_bind'] at h
+    extract_lets rl eNn eN wmax zero gam0 div0 div gamma g0 rho nTau0 nTau nDtau0 nDtau drhoAt biasTau
+      drho1 jp dv tau gw at h
+    have heN : (2 : ℝ) ≤ eN := by
+      simp only [eN, ofNatS_eq]
+      exact_mod_cast hN
+    have hgamma : gamma.length = wmax := by
+      have h1 : gam0.length = wmax :=
+        foldl_addL_length _ wmax (fun r => calcGamma_length _ _ _ _) reps zero (by simp [zero])
+      have h2 : div0.length = wmax :=
+        foldl_addL_length _ wmax (fun r => calcGamma_length _ _ _ _) reps zero (by simp [zero])
+      simp [gamma, div, h1, h2]
+    have hnTauLen : nTau.length = 1 + (wmax - 1) := by
+      simp [nTau, nTau0, cumsum_length, rho, hgamma]
+      omega
+    have hnTauMem : ∀ t ∈ nTau, fp.half < t := by
+      intro t ht
+      simp only [nTau, List.mem_map] at ht
+      obtain ⟨x, _, hx⟩ := ht
+      split at hx
+      · rw [← hx]; exact lt_add_of_pos_right _ hfp.2
+      · rw [← hx]; rename_i hc; exact not_le.mp hc
+    have hz : (0:ℝ) ≤ (Scalar.lit 0 : ℝ) := by simp
+    have hnDtau : ∀ n, 0 ≤ nDtau.getD n (Scalar.lit 0) := by
+      apply getD_nonneg_of_forall _ _ _ hz
+      intro x hx
+      rcases List.mem_or_eq_of_mem_set hx with hx | hx
+      · simp only [nDtau0, List.mem_map] at hx
+        obtain ⟨⟨i, t⟩, hit, rfl⟩ := hx
+        have ht := hnTauMem t (List.of_mem_zip hit).2
+        rw [hfp.1] at ht
+        have : (0:ℝ) ≤ t * (Scalar.lit 2 : ℝ) := by
+          rw [lit_eq]; push_cast; linarith
+        exact mul_nonneg this (Real.sqrt_nonneg _)
+      · rw [hx]; exact hz
+    have hbias : ∀ n, n < wmax → 1 / 2 ≤ biasTau n := by
+      intro n hn
+      have hmem : nTau.getD n (Scalar.lit 0) ∈ nTau := by
+        have : n < nTau.length := by omega
+        simp [List.getD_eq_getElem?_getD, this]
+      have ht := hnTauMem _ hmem
+      rw [hfp.1] at ht
+      have := bias_ge (nTau.getD n (Scalar.lit 0)) eN n ht (by linarith) (Nat.cast_nonneg n)
+      simpa [biasTau] using this
+    split at h
+    · cases h
+      refine ⟨?_, ?_, ?_, ?_⟩ <;> simp [hfp.1]
+    · split at h
+      · split at h
+        · cases h
+        · simp only [jp] at h
+          split at h
+          · cases h
+          · cases h
+            rename_i W d hW
+            have hb := texpLoop_bound _ _ _ _ _ _ _ _ _ hW
+            have hWlt : W < wmax := by omega
+            refine ⟨?_, Real.sqrt_nonneg _, Real.sqrt_nonneg _,
+              mul_nonneg (Real.sqrt_nonneg _) (Real.sqrt_nonneg _)⟩
+            have h1 := hbias W hWlt
+            have h2 : (0:ℝ) ≤ te * absS (rho.getD (W + 1) (Scalar.lit 0)) := by
+              rw [absS_eq]; exact mul_nonneg hte (abs_nonneg _)
+            show 1 / 2 ≤ biasTau W + te * absS (rho.getD (W + 1) (Scalar.lit 0))
+            linarith
+      · split at h
+        · cases h
+          refine ⟨?_, ?_, Real.sqrt_nonneg _, mul_nonneg (Real.sqrt_nonneg _) (Real.sqrt_nonneg _)⟩
+          · simp [hfp.1]
+          · simp
+        · split at h
+          · cases h
+          · cases h
+            rename_i W hW
+            have hb := windowLoop_bound _ _ _ _ _ hW
+            have hWlt : W < wmax := by omega
+            exact ⟨hbias W hWlt, hnDtau W, Real.sqrt_nonneg _,
+              mul_nonneg (Real.sqrt_nonneg _) (Real.sqrt_nonneg _)⟩
+end real
+
 
 end PV
